@@ -19,6 +19,7 @@ type specEnv struct {
 	pkg      string
 	oldTop   Term
 	what     string
+	ptypes   map[string]types.Type // static types of the callee's parameters (call sites only)
 }
 
 func (env *specEnv) with(vars map[string]Val) *specEnv {
@@ -498,6 +499,15 @@ func (r *FnRun) loadTypedNoAssume(t types.Type, path string, rd func(path string
 	tm := rd(path, r.sortOf(t))
 	if r.cur != nil && !strings.Contains(tm.S, "q_") {
 		r.assumeRange(r.cur, tm, t)
+		// whatever a pointer or channel in memory refers to was allocated
+		// before now (first mention wins: at function entry that is top0)
+		switch under(t).(type) {
+		case *types.Pointer, *types.Chan:
+			if tm.Sort == SInt && !r.cur.ranged["sb:"+tm.S] {
+				r.cur.ranged["sb:"+tm.S] = true
+				r.assume(Le(tm, r.cur.top))
+			}
+		}
 	}
 	return r.wrapScalar(tm, t)
 }
@@ -515,6 +525,9 @@ func (r *FnRun) externGlobal(st *State, pkgAlias, name string) Val {
 	if !r.decl[gname] {
 		r.declareGlobal(gname, SInt)
 		fmt.Fprintf(&r.prelude, "(assert (> %s 0))\n", gname)
+		if r.decl["top0"] {
+			fmt.Fprintf(&r.prelude, "(assert (<= %s top0))\n", gname)
+		}
 		for _, o := range r.e.errGlobals(r) {
 			if o != gname {
 				fmt.Fprintf(&r.prelude, "(assert (not (= %s %s)))\n", gname, o)
@@ -753,6 +766,19 @@ func (r *FnRun) evalCall(x SCall, env *specEnv) Val {
 			top = env.old.top
 		}
 		return Gt(t, top)
+	case "base":
+		// identity of the backing array of a slice (0 for a nil slice)
+		v := r.evalSpec(x.Args[0], env)
+		s, ok := v.(SliceVal)
+		if !ok {
+			sfail("base of %T", v)
+		}
+		return s.Base
+	case "allocated":
+		// the reference exists in the state the expression is evaluated in
+		// (anything allocated later is different from it)
+		t := r.argTerm(r.evalSpec(x.Args[0], env), env)
+		return Le(t, env.st.top)
 	case "unchanged":
 		n := *env
 		n.st = env.old
@@ -916,8 +942,24 @@ func (r *FnRun) obligeClause(kind, label string, e SExpr, env *specEnv, st *Stat
 		r.oblige(kind, label, r.evalBool(parts[0].e, parts[0].env), st)
 		return
 	}
+	// The conjunction as a whole is tried first (one query); only if that does
+	// not go through are the conjuncts checked one by one to name the culprit.
+	var goals []Term
+	for _, p := range parts {
+		goals = append(goals, r.evalBool(p.e, p.env))
+	}
+	gate := &OblInst{Name: fmt.Sprintf("%s:%s:%s/*", shortName(r.name), kind, label), Kind: "GATE", Desc: label, Ctx: st.ctx, Goal: And(goals...), Path: fmtPath(st.path), Seq: len(r.obls)}
+	if gate.Goal.S != "true" && r.c != nil && r.c.Opts["gate"] != "" {
+		r.obls = append(r.obls, gate)
+	} else {
+		gate = nil
+	}
 	for i, p := range parts {
-		r.oblige(kind, fmt.Sprintf("%s/%s%d", label, p.tag, i), r.evalBool(p.e, p.env), st)
+		n := len(r.obls)
+		r.oblige(kind, fmt.Sprintf("%s/%s%d", label, p.tag, i), goals[i], st)
+		if gate != nil && len(r.obls) > n {
+			r.obls[len(r.obls)-1].Gate = gate
+		}
 	}
 }
 
